@@ -137,6 +137,28 @@ def phases(ck, pid, rows, trace_file):
                    dict(rows=[dict(cfg=x["cfg"], ev=x["ev"][:400]) for x, _ in lst[:3]]))
 
 
+def cpool_grain(ck, pid, rows, trace_file):
+    """Spec-grain validation of the users pool: each cooperative schedule of the real ContinuousPool is replayed as
+    ACTIONS of spec/ContinuousPool.tla (Trace_ContinuousPool). The specification's own invariants that state property
+    `pid`, evaluated along the real schedule, give the verdict; a schedule the specification cannot follow at all is a
+    deviation from the MODEL and is reported as a diagnostic only (F1Run judges the same schedule at property level)."""
+    res, bad = vlib.validate_rows("Trace_ContinuousPool", "Trace_ContinuousPool_%s.cfg" % pid, trace_file, var="tr", workers=4, timeout=600)
+    ck.add_tlc("Trace_ContinuousPool_%s.cfg" % pid, res)
+    for k in bad[:3]:
+        r = rows[k - 1]
+        ck.observe("%s:users-pool-schedule-violates-ContinuousPool-invariant" % pid,
+                   "%s: Inv%s of ContinuousPool.tla fails along a real schedule of the users pool: %s; actions %s" % (
+                       pid, pid, r["cfg"]["args"][:200], json.dumps(r.get("arr", [])[-14:])), dict(rows=[r]))
+    res2, bad2 = vlib.validate_rows("Trace_ContinuousPool", "Trace_ContinuousPool.cfg", trace_file, var="tr", workers=4, timeout=600)
+    ck.add_tlc("Trace_ContinuousPool.cfg", res2)
+    ck.notes["users_pool_schedules_followed_by_the_specification"] = "%d of %d" % (len(rows) - len(bad2), len(rows))
+    for k in bad2[:3]:
+        r = rows[k - 1]
+        vlib.log("CONFORMANCE-DRIFT property=%s the real users pool took a step ContinuousPool.tla does not have: %s" % (pid, r["cfg"]["args"][:200]))
+    if bad2:
+        ck.notes["conformance_drift_ContinuousPool"] = [rows[k - 1]["cfg"]["args"][:200] for k in bad2[:5]]
+
+
 def extra(ck, pid, sub, fname, describe=None):
     """Run another harness sub-command producing F1Run traces and validate them for property pid."""
     binary = vlib.build_harness()
@@ -144,6 +166,8 @@ def extra(ck, pid, sub, fname, describe=None):
         rc, out = vlib.run_drive(binary, sub, ["-out", d, "-tier", ck.tier, "-seed", ck.seed], timeout=1800)
         rows = vlib.read_ndjson(os.path.join(d, fname))
         res, bad = vlib.validate_rows("F1Run", "Trace_F1Run_%s.cfg" % pid, os.path.join(d, fname), var="tr", workers=8, timeout=1500)
+        if sub == "cpool":
+            cpool_grain(ck, pid, rows, os.path.join(d, fname))
     ck.add_tlc("Trace_F1Run_%s.cfg/%s" % (pid, sub), res)
     ck.traces += len(rows)
     ck.evaluations += len(rows)
